@@ -132,43 +132,49 @@ def is_broken(text):
     return text.rstrip().endswith("{")
 
 
-def stale_workspace(c):
-    """the final workspace in which every file that no longer parses is replaced by the last version of it that did
-    (what the server's cache still holds for that URI: finding C15-parse-error-keeps-stale-aggregates); None when no
-    final file is broken. A broken file that never parsed under its current URI has no stale module: it is left out."""
+def stale_workspaces(c, limit=12):
+    """the final workspace in which every file that no longer parses is replaced by an EARLIER version of it that did
+    parse — what the server's cache may still hold for that URI (finding C15-parse-error-keeps-stale-aggregates): the
+    last version the file worker managed to parse before the contents changed again, which in a burst need not be the
+    last parseable text that was sent. Returns the candidate workspaces (most recent versions first; a broken file that
+    never parsed under its current URI is left out) and the broken files; ([], []) when no final file is broken."""
+    import itertools
     cur = {f: t for f, t in c["files"].items() if f.endswith(".rego")}
-    good = {f: (None if is_broken(t) else t) for f, t in cur.items()}
+    good = {f: ([] if is_broken(t) else [t]) for f, t in cur.items()}
     cfg = c["files"].get(".regal/config.yaml")
     for e in c["events"]:
         k = e["kind"]
         if k in ("change", "create") and (k == "create" or e["file"] in cur):
             cur[e["file"]] = e["text"]
+            good.setdefault(e["file"], [])
             if not is_broken(e["text"]):
-                good[e["file"]] = e["text"]
-            else:
-                good.setdefault(e["file"], None)
+                good[e["file"]].append(e["text"])
         elif k == "delete":
             cur.pop(e["file"], None)
             good.pop(e["file"], None)
         elif k == "rename" and e["file"] in cur and e["to"] not in cur:
             cur[e["to"]] = cur.pop(e["file"])
             good.pop(e["file"], None)
-            good[e["to"]] = None if is_broken(cur[e["to"]]) else cur[e["to"]]
+            good[e["to"]] = [] if is_broken(cur[e["to"]]) else [cur[e["to"]]]
         elif k == "config":
             cfg = e["text"]
-    broken = [f for f, t in cur.items() if is_broken(t)]
+    broken = sorted(f for f, t in cur.items() if is_broken(t))
     if not broken:
-        return None, []
-    files = {}
-    for f, t in cur.items():
-        if f in broken:
-            if good.get(f):
-                files[f] = good[f]
-        else:
-            files[f] = t
-    if cfg is not None:
-        files[".regal/config.yaml"] = cfg
-    return files, broken
+        return [], []
+    options = []
+    for f in broken:
+        vs = list(dict.fromkeys(reversed(good.get(f) or [])))      # most recent first, distinct
+        options.append(vs + [None])
+    out = []
+    for combo in itertools.islice(itertools.product(*options), limit):
+        files = {f: t for f, t in cur.items() if f not in broken}
+        for f, t in zip(broken, combo):
+            if t is not None:
+                files[f] = t
+        if cfg is not None:
+            files[".regal/config.yaml"] = cfg
+        out.append(files)
+    return out, broken
 
 
 def run(ctx):
@@ -200,6 +206,12 @@ def run(ctx):
                {"kind": "delete", "file": "p2/f2.rego", "pauseMs": 0},
                {"kind": "config", "text": CFG2, "pauseMs": 300}]
         cases.append({"id": len(cases), "op": "lsp.history", "files": files, "events": evs})
+    # directed: plain starts on a workspace that already has a file in the ignored directory (the workspace is linted
+    # with the default configuration before the user's config is loaded)
+    for rep in range(6 if ctx.quick else 24):
+        files = {"ignored/f0.rego": content(0, [2, 3], 0), "p1/f1.rego": content(1, [], 1), "p2/f2.rego": content(2, [1], 0),
+                 ".regal/config.yaml": CFG3 if rep % 2 else CFG}
+        cases.append({"id": len(cases), "op": "lsp.history", "files": files, "events": []})
     impl = ctx.impl(cases, timeout=3000, procs=6)
     pending = []
     for c in cases:
@@ -220,6 +232,12 @@ def run(ctx):
             ctx.fail("at quiescence the server's cache holds a module / aggregate data of a file that is not in the workspace",
                      desc, None, {"modules": o.get("orphanModules"), "aggregates": o.get("orphanAggregates")})
         pub, fresh = o["published"], o["fresh"]
+        # every configuration used here ignores the directory ignored/: nothing may stay published for a file in it,
+        # neither by the server that lived through the history nor by the freshly started reference server
+        for which, m in (("history server", pub), ("fresh server", fresh)):
+            bad = {f: d for f, d in m.items() if f.startswith("/ignored/") and d}
+            if bad:
+                ctx.fail("diagnostics stay published for a file the configuration ignores (%s)" % which, desc, None, bad)
         diff = {}
         for f in sorted(set(pub) | set(fresh)):
             a, b = pub.get(f, []), fresh.get(f, [])
@@ -237,19 +255,20 @@ def run(ctx):
     # their last parseable versions. Anything else is a new violation.
     alt = []
     for (c, desc, diff, pub) in pending:
-        files, broken = stale_workspace(c)
-        if files is not None:
+        cands, broken = stale_workspaces(c)
+        for files in cands:
             alt.append({"id": len(alt), "op": "lsp.history", "files": files, "events": [], "_for": c["id"], "_broken": broken})
     altres = ctx.impl(alt, timeout=3000, procs=6) if alt else {}
-    altby = {a["_for"]: (a, altres[a["id"]].get("out") or {}) for a in alt}
+    altby = {}
+    for a in alt:
+        altby.setdefault(a["_for"], []).append((a, altres[a["id"]].get("out") or {}))
     for (c, desc, diff, pub) in pending:
         known = None
-        if c["id"] in altby:
-            a, ao = altby[c["id"]]
+        for a, ao in altby.get(c["id"], []):
             if ao.get("idle") and "published" in ao:
                 skip = {"/" + f for f in a["_broken"]}
-                same = all(pub.get(f, []) == ao["published"].get(f, []) for f in (set(pub) | set(ao["published"])) - skip)
-                if same:
+                if all(pub.get(f, []) == ao["published"].get(f, []) for f in (set(pub) | set(ao["published"])) - skip):
                     known = "C15-parse-error-keeps-stale-aggregates"
+                    break
         ctx.fail("published diagnostics at quiescence differ from a fresh lint of the final workspace", desc, known, diff)
     ctx.sample({"events": cases[0]["events"], "published": (impl[0].get("out") or {}).get("published")})
